@@ -120,6 +120,12 @@ def run_history(hist, batch):
             elif ev == "flush":
                 w.flush()
                 commit_points.add(len(written))
+            elif ev == "reopen":
+                # the tool ran to its end; a second run appends to the same database file with a writer of its own
+                w.close()
+                commit_points.add(len(written))
+                w = SqliteWriter(path, batch_size=batch)
+                seen_desc = set()
             elif ev in ("close", "exit-exc", "exit"):
                 if ev == "close":
                     w.close()
@@ -435,6 +441,13 @@ def cases(tier, seed):
         for hist in itertools.product(["K1", "K2", "A", "flush", "close"], repeat=k):
             if "close" not in hist[:-1] and "K1" in hist and "K2" in hist:
                 yield {"kind": "hist", "hist": list(hist)}
+    # a second (third) run appending to the database of the first: the record types it brings meet tables that already exist
+    for k in range(2, depth + 1):
+        for hist in itertools.product(["A", "A+", "A-", "B", "reopen"] if k < depth else ["A", "A+", "reopen"], repeat=k):
+            if "reopen" in hist[1:] and hist[-1] != "reopen":
+                yield {"kind": "hist", "hist": list(hist)}
+                if k <= 3:
+                    yield {"kind": "hist", "hist": list(hist) + ["close"]}
     for n in range(1, 9):
         yield {"kind": "hist", "hist": ["A"] * n}
         yield {"kind": "hist", "hist": ["A"] * n + ["close"]}
